@@ -300,7 +300,9 @@ impl C08 {
                 w.stats.add("probe.patches_applied", patches.len() as u64);
                 let kinds: Vec<&str> = patches.iter().map(kind_of).collect();
                 if let Err(e) = view.apply_all(&patches) {
-                    return Err(fail("diff_applies", &format!("patch-does-not-apply:{}", sig_of_detail(&e)), format!("diff from heads of {} changes to heads of {} changes: {e}; patches {kinds:?}", af.len(), at.len())));
+                    let idx: usize = e.split(' ').nth(1).and_then(|x| x.parse().ok()).unwrap_or(0);
+                    let k = kinds.get(idx).copied().unwrap_or("?");
+                    return Err(fail("diff_applies", &format!("patch-does-not-apply:{}:{k}", sig_of_detail(&e)), format!("diff from heads of {} changes to heads of {} changes: {e}; patches {kinds:?}", af.len(), at.len())));
                 }
                 let want = view_of_tree(&t_to, enc);
                 if let Some(d) = view_diff(&want, &view) {
@@ -323,7 +325,9 @@ impl C08 {
                             let mut v2 = view_of_tree(&t_from, enc);
                             let kinds: Vec<&str> = ps.iter().map(kind_of).collect();
                             if let Err(e) = v2.apply_all(&ps) {
-                                return Err(fail("diff_obj_applies", &format!("patch-does-not-apply:{}", sig_of_detail(&e)), format!("diff_obj({key}, recursive={recursive}): {e}; patches {kinds:?}")));
+                                let idx: usize = e.split(' ').nth(1).and_then(|x| x.parse().ok()).unwrap_or(0);
+                                let k = kinds.get(idx).copied().unwrap_or("?");
+                                return Err(fail("diff_obj_applies", &format!("patch-does-not-apply:{}:{k}", sig_of_detail(&e)), format!("diff_obj({key}, recursive={recursive}): {e}; patches {kinds:?}")));
                             }
                             // compare the object itself; for the recursive form its whole subtree
                             let d = if recursive { subtree_diff(&want, &v2, &key) } else { node_shallow_diff(&want, &v2, &key) };
